@@ -109,11 +109,11 @@ func runC11Big(ci interface{}, st *CaseStats) error {
 }
 
 var specC11Big = &Spec{
-	ID:   "C11",
-	Rule: "big-batch mode: case = one batch of 20..400 puts with 1..32 KiB keys, or 20 000..120 000 small puts (around and beyond what Badger takes in one transaction), optionally ended by a compare-and-swap / put-if-absent whose condition fails or holds. Oracle: Commit returns an error whenever a condition fails; after an error the store is byte-identical to before, after success every record of the batch is there. Non-trivial = the batch was refused; distinct = SHA-1 of the case",
-	Gen:  genC11Big,
-	New:  func() interface{} { return &c11BigCase{} },
-	Run:  runC11Big,
+	ID:      "C11",
+	Rule:    "big-batch mode: case = one batch of 20..400 puts with 1..32 KiB keys, or 20 000..120 000 small puts (around and beyond what Badger takes in one transaction), optionally ended by a compare-and-swap / put-if-absent whose condition fails or holds. Oracle: Commit returns an error whenever a condition fails; after an error the store is byte-identical to before, after success every record of the batch is there. Non-trivial = the batch was refused; distinct = SHA-1 of the case",
+	Gen:     genC11Big,
+	New:     func() interface{} { return &c11BigCase{} },
+	Run:     runC11Big,
 	Engines: []string{EngBadger, EngBadgerMet, EngMem},
 }
 
